@@ -43,6 +43,10 @@ VARIABLES
   tcan,       \* [T -> BOOLEAN]                     Timer.cancelled
   tint,       \* [T -> BOOLEAN]                     read interest of the timer's slot
   trep,       \* [T -> 0 | interval]                repeating closure installed
+  \* --- ghost: by which code path the current registration was established (no effect on behaviour;
+  \*     part of the VIEW so that the transition cover continues after every distinct path) ---
+  thow,       \* [T -> "none" | "set" | "stale"]
+  ohow,       \* [O -> [R, W : "none" | "first" | "limit" | "retry"]]
   \* --- kernel / environment ---
   rdata,      \* [O -> 0..MaxData]   readable units (bytes / queued connections / datagrams)
   peer,       \* [O -> "open" | "closed" | "reset"]
@@ -63,7 +67,7 @@ VARIABLES
   \* --- generation ---
   hist, done
 
-libvars  == <<interest, rop, wop, oclosed, pending, dispatched, posts, tst, tcan, tint, trep>>
+libvars  == <<interest, rop, wop, oclosed, pending, dispatched, posts, tst, tcan, tint, trep, thow, ohow>>
 envvars  == <<rdata, peer, wfull, yanked, tarmed, texp, evfd, rdy, now>>
 ctlvars  == <<stack, inpoll, batch, bi, bphase, pq, nop, ncmd, npost, needSample, drain, dpolls>>
 monvars  == <<kinds, cls, lim, base, ost, ops, csnap, tm, posted, ranp, anomaly, bad>>
@@ -94,6 +98,7 @@ Init ==
   /\ oclosed = [o \in O |-> FALSE] /\ pending = 0 /\ dispatched = 0 /\ posts = <<>>
   /\ tst = [t \in T |-> "ready"] /\ tcan = [t \in T |-> FALSE] /\ tint = [t \in T |-> FALSE]
   /\ trep = [t \in T |-> 0]
+  /\ thow = [t \in T |-> "none"] /\ ohow = [o \in O |-> [R |-> "none", W |-> "none"]]
   /\ rdata = [o \in O |-> 0] /\ peer = [o \in O |-> "open"] /\ wfull = [o \in O |-> FALSE]
   /\ yanked = [o \in O |-> FALSE]
   /\ tarmed = [t \in T |-> -1] /\ texp = [t \in T |-> FALSE] /\ evfd = FALSE /\ rdy = <<>> /\ now = 0
@@ -208,6 +213,7 @@ DelDir(o, d) ==
   /\ interest' = [interest EXCEPT ![o] = @ \ {d}]
   /\ pending' = pending - 1
   /\ rdy' = RdyObj(rdy, o, interest[o] \ {d}, OMask(o))
+  /\ ohow' = [ohow EXCEPT ![o][d] = "none"]
 
 Close(o) ==
   /\ CanCmd /\ "close" \in Cmds /\ ~oclosed[o]
@@ -217,9 +223,10 @@ Close(o) ==
      /\ interest' = [interest EXCEPT ![o] = left]
      /\ pending' = pending - Cardinality(interest[o] \ left)
   /\ rdy' = Without(rdy, o)
+  /\ ohow' = [ohow EXCEPT ![o] = [R |-> "none", W |-> "none"]]
   /\ stack' = Push(<<[Fr("closeE", 0) EXCEPT !.o = o]>>)
   /\ Emit([Z EXCEPT !.ev = "CloseB", !.o = o])
-  /\ UNCHANGED <<rop, wop, dispatched, posts, tst, tcan, tint, trep, rdata, peer, wfull, yanked, tarmed, texp, evfd, now,
+  /\ UNCHANGED <<rop, wop, dispatched, posts, tst, tcan, tint, trep, thow, rdata, peer, wfull, yanked, tarmed, texp, evfd, now,
                  inpoll, batch, bi, bphase, pq, nop, npost, drain, dpolls, done>>
 
 Post ==
@@ -230,7 +237,7 @@ Post ==
   /\ evfd' = TRUE /\ rdy' = AddRdy(rdy, 0)
   /\ stack' = Push(<<>>)
   /\ Emit([Z EXCEPT !.ev = "PostE", !.h = npost + 1, !.err = "nil"])
-  /\ UNCHANGED <<interest, rop, wop, oclosed, dispatched, tst, tcan, tint, trep, rdata, peer, wfull, yanked, tarmed, texp, now,
+  /\ UNCHANGED <<interest, rop, wop, oclosed, dispatched, tst, tcan, tint, trep, thow, ohow, rdata, peer, wfull, yanked, tarmed, texp, now,
                  inpoll, batch, bi, bphase, pq, nop, drain, dpolls, done>>
 
 \* internal.Timer.Unset on timer t, as an effect on (tint, pending, tarmed, texp, rdy)
@@ -239,7 +246,8 @@ UnsetT(t) ==
     THEN /\ tint' = [tint EXCEPT ![t] = FALSE] /\ pending' = pending - 1
          /\ tarmed' = [tarmed EXCEPT ![t] = -1] /\ texp' = [texp EXCEPT ![t] = FALSE]
          /\ rdy' = Without(rdy, TEnt(t))
-    ELSE UNCHANGED <<tint, pending, tarmed, texp, rdy>>
+         /\ thow' = [thow EXCEPT ![t] = "none"]
+    ELSE UNCHANGED <<tint, pending, tarmed, texp, rdy, thow>>
 
 \* Timer.ScheduleOnce(d, cb) with d > 0 when the state is ready (Set = Unset; settime; SetRead)
 ArmT(t, d) ==
@@ -248,6 +256,7 @@ ArmT(t, d) ==
   /\ pending' = IF tint[t] THEN pending ELSE pending + 1
   /\ tarmed' = [tarmed EXCEPT ![t] = d] /\ texp' = [texp EXCEPT ![t] = FALSE]
   /\ rdy' = Without(rdy, TEnt(t))
+  /\ thow' = [thow EXCEPT ![t] = "set"]
   /\ tst' = [tst EXCEPT ![t] = "sched"]
 
 TSched(t, rep, d) ==
@@ -257,10 +266,10 @@ TSched(t, rep, d) ==
   /\ IF tst[t] = "ready"
        THEN /\ ArmT(t, d) /\ trep' = [trep EXCEPT ![t] = IF rep = 1 THEN d ELSE 0]
             /\ stack' = Push(<<[Fr("tschedE", t) EXCEPT !.d = "nil"]>>)
-       ELSE /\ UNCHANGED <<tcan, tint, pending, tarmed, texp, rdy, tst, trep>>
+       ELSE /\ UNCHANGED <<tcan, tint, pending, tarmed, texp, rdy, tst, trep, thow>>
             /\ stack' = Push(<<[Fr("tschedE", t) EXCEPT !.d = "cancelled"]>>)
   /\ Emit([Z EXCEPT !.ev = "TSchedB", !.t = t, !.n = rep, !.d = d * TickUs, !.ts = now * TickUs])
-  /\ UNCHANGED <<interest, rop, wop, oclosed, dispatched, posts, rdata, peer, wfull, yanked, evfd, now,
+  /\ UNCHANGED <<interest, rop, wop, oclosed, dispatched, posts, ohow, rdata, peer, wfull, yanked, evfd, now,
                  inpoll, batch, bi, bphase, pq, nop, npost, drain, dpolls, done>>
 
 TCancel(t) ==
@@ -272,7 +281,7 @@ TCancel(t) ==
        ELSE tcan' = [tcan EXCEPT ![t] = TRUE] /\ tst' = [tst EXCEPT ![t] = "ready"]
   /\ stack' = Push(<<>>)
   /\ Emit([Z EXCEPT !.ev = "TCancelE", !.t = t, !.err = "nil"])
-  /\ UNCHANGED <<interest, rop, wop, oclosed, dispatched, posts, trep, rdata, peer, wfull, yanked, evfd, now,
+  /\ UNCHANGED <<interest, rop, wop, oclosed, dispatched, posts, trep, ohow, rdata, peer, wfull, yanked, evfd, now,
                  inpoll, batch, bi, bphase, pq, nop, npost, drain, dpolls, done>>
 
 TClose(t) ==
@@ -282,7 +291,7 @@ TClose(t) ==
   /\ tst' = [tst EXCEPT ![t] = "closed"]
   /\ stack' = Push(<<>>)
   /\ Emit([Z EXCEPT !.ev = "TCloseE", !.t = t, !.err = "nil"])
-  /\ UNCHANGED <<interest, rop, wop, oclosed, dispatched, posts, tcan, trep, rdata, peer, wfull, yanked, evfd, now,
+  /\ UNCHANGED <<interest, rop, wop, oclosed, dispatched, posts, tcan, trep, ohow, rdata, peer, wfull, yanked, evfd, now,
                  inpoll, batch, bi, bphase, pq, nop, npost, drain, dpolls, done>>
 
 \* a user callback returns
@@ -295,7 +304,7 @@ Return ==
                      !.op = IF Top.ek = "op" THEN Top.id ELSE 0,
                      !.t = IF Top.ek = "tm" THEN Top.id ELSE 0,
                      !.h = IF Top.ek = "po" THEN Top.id ELSE 0])
-  /\ UNCHANGED <<interest, rop, wop, oclosed, posts, tst, tcan, tint, trep, envvars,
+  /\ UNCHANGED <<interest, rop, wop, oclosed, posts, tst, tcan, tint, trep, thow, ohow, envvars,
                  inpoll, batch, bi, bphase, pq, nop, ncmd, npost, needSample, drain, done>>
   /\ dpolls' = 0     \* a handler ran: the drain phase made progress
 
@@ -323,23 +332,25 @@ DoTry ==
             /\ rdata' = IF d = "R" THEN [rdata EXCEPT ![o] = @ - 1]
                          ELSE IF peer[o] = "closed" THEN [rdata EXCEPT ![o] = 0] ELSE rdata
             /\ rdy' = rdy
-            /\ UNCHANGED <<interest, pending>>
+            /\ UNCHANGED <<interest, pending, ohow>>
         ELSE IF res \in {"eof", "errno"} THEN
-            /\ Complete(op, res, inl) /\ UNCHANGED <<rdata, rdy, interest, pending>>
+            /\ Complete(op, res, inl) /\ UNCHANGED <<rdata, rdy, interest, pending, ohow>>
         ELSE \* would block, or at the dispatch limit: scheduleRead / scheduleWrite
           IF oclosed[o] THEN
-            /\ Complete(op, "eof", inl) /\ UNCHANGED <<rdata, rdy, interest, pending>>
+            /\ Complete(op, "eof", inl) /\ UNCHANGED <<rdata, rdy, interest, pending, ohow>>
           ELSE IF Kinds[o] = "reg" \/ yanked[o] THEN    \* epoll_ctl fails (EPERM)
             /\ Complete(op, "errno", inl)
             /\ interest' = IF BUG_RegLeak THEN [interest EXCEPT ![o] = @ \cup {d}] ELSE interest
             /\ pending' = IF BUG_RegLeak /\ d \notin interest[o] THEN pending + 1 ELSE pending
-            /\ UNCHANGED <<rdata, rdy>>
+            /\ UNCHANGED <<rdata, rdy, ohow>>
           ELSE
             /\ interest' = [interest EXCEPT ![o] = @ \cup {d}]
             /\ pending' = IF d \in interest[o] THEN pending ELSE pending + 1
             /\ rdy' = RdyObj(rdy, o, interest[o] \cup {d}, OMask(o))
+            /\ ohow' = [ohow EXCEPT ![o][d] = IF ~Top.first THEN "retry"
+                                                ELSE IF dispatched < Limit THEN "first" ELSE "limit"]
             /\ stack' = Rest /\ UNCHANGED <<rdata, dispatched>> /\ NoEvent
-  /\ UNCHANGED <<oclosed, posts, tst, tcan, tint, trep, wfull, yanked, tarmed, texp, evfd, now,
+  /\ UNCHANGED <<oclosed, posts, tst, tcan, tint, trep, thow, wfull, yanked, tarmed, texp, evfd, now,
                  inpoll, batch, bi, bphase, pq, nop, ncmd, npost, needSample, drain, dpolls, done>>
 
 DoRet ==
@@ -354,7 +365,7 @@ DoCancel ==
   /\ LET o == Top.o  ph == Top.d IN
      IF ph = "E" THEN
         /\ stack' = Rest /\ Emit([Z EXCEPT !.ev = "CancelE", !.o = o])
-        /\ UNCHANGED <<interest, pending, rdy, dispatched>>
+        /\ UNCHANGED <<interest, pending, rdy, dispatched, ohow>>
      ELSE IF ph \in interest[o] THEN
         /\ DelDir(o, ph)
         /\ stack' = <<CbFrame("op", IF ph = "R" THEN rop[o] ELSE wop[o], FALSE),
@@ -364,8 +375,8 @@ DoCancel ==
         /\ UNCHANGED dispatched
      ELSE
         /\ stack' = <<CancelFrame(o, IF ph = "R" THEN "W" ELSE "E")>> \o Rest /\ NoEvent
-        /\ UNCHANGED <<interest, pending, rdy, dispatched>>
-  /\ UNCHANGED <<rop, wop, oclosed, posts, tst, tcan, tint, trep, rdata, peer, wfull, yanked, tarmed, texp, evfd, now,
+        /\ UNCHANGED <<interest, pending, rdy, dispatched, ohow>>
+  /\ UNCHANGED <<rop, wop, oclosed, posts, tst, tcan, tint, trep, thow, rdata, peer, wfull, yanked, tarmed, texp, evfd, now,
                  inpoll, batch, bi, bphase, pq, nop, ncmd, npost, needSample, drain, dpolls, done>>
 
 DoCloseE ==
@@ -385,11 +396,11 @@ DoRearm ==
   /\ stack # <<>> /\ Top.k = "rearm"
   /\ LET t == Top.id IN
      IF tcan[t] THEN
-        /\ tcan' = [tcan EXCEPT ![t] = FALSE] /\ UNCHANGED <<tint, pending, tarmed, texp, rdy, tst>>
+        /\ tcan' = [tcan EXCEPT ![t] = FALSE] /\ UNCHANGED <<tint, pending, tarmed, texp, rdy, tst, thow>>
      ELSE IF tst[t] = "ready" /\ trep[t] > 0 THEN ArmT(t, trep[t])
-     ELSE UNCHANGED <<tcan, tint, pending, tarmed, texp, rdy, tst>>
+     ELSE UNCHANGED <<tcan, tint, pending, tarmed, texp, rdy, tst, thow>>
   /\ stack' = Rest /\ NoEvent
-  /\ UNCHANGED <<interest, rop, wop, oclosed, dispatched, posts, trep, rdata, peer, wfull, yanked, evfd, now,
+  /\ UNCHANGED <<interest, rop, wop, oclosed, dispatched, posts, trep, ohow, rdata, peer, wfull, yanked, evfd, now,
                  inpoll, batch, bi, bphase, pq, nop, ncmd, npost, needSample, drain, dpolls, done>>
 
 \* poller.dispatch(): run the posted handlers one after the other
@@ -437,16 +448,16 @@ PollStep ==
           /\ evfd' = FALSE /\ pq' = posts /\ posts' = <<>>
           /\ stack' = <<Fr("postloop", 0)>>
           /\ bi' = bi + 1 /\ NoEvent
-          /\ UNCHANGED <<interest, rop, wop, oclosed, pending, dispatched, tst, tcan, tint, trep,
+          /\ UNCHANGED <<interest, rop, wop, oclosed, pending, dispatched, tst, tcan, tint, trep, thow, ohow,
                          rdata, peer, wfull, yanked, tarmed, texp, rdy, now, inpoll, batch, bphase, needSample>>
        ELSE IF x <= NO THEN
           /\ IF Fires(m, bphase, interest[x]) THEN
                 /\ DelDir(x, bphase)
                 /\ stack' = <<TryFrame(bphase, x, IF bphase = "R" THEN rop[x] ELSE wop[x], FALSE)>>
-             ELSE UNCHANGED <<interest, pending, rdy, stack>>
+             ELSE UNCHANGED <<interest, pending, rdy, stack, ohow>>
           /\ IF bphase = "R" THEN bphase' = "W" /\ bi' = bi ELSE bphase' = "R" /\ bi' = bi + 1
           /\ NoEvent
-          /\ UNCHANGED <<rop, wop, oclosed, dispatched, posts, tst, tcan, tint, trep,
+          /\ UNCHANGED <<rop, wop, oclosed, dispatched, posts, tst, tcan, tint, trep, thow,
                          rdata, peer, wfull, yanked, tarmed, texp, evfd, now, inpoll, batch, pq, needSample>>
        ELSE LET t == x - NO IN
           /\ bi' = bi + 1
@@ -454,15 +465,17 @@ PollStep ==
                 IF ~texp[t] /\ ~BUG_StaleTimer THEN
                    \* repaired handler: the read of the timerfd fails, the interest is set again
                    /\ NoEvent /\ UNCHANGED <<tint, pending, texp, tst, stack, rdy>>
+                   /\ thow' = [thow EXCEPT ![t] = "stale"]
                 ELSE
                    /\ tint' = [tint EXCEPT ![t] = FALSE] /\ pending' = pending - 1
                    /\ texp' = [texp EXCEPT ![t] = FALSE]
                    /\ rdy' = Without(rdy, x)
                    /\ tst' = [tst EXCEPT ![t] = "ready"]
+                   /\ thow' = [thow EXCEPT ![t] = "none"]
                    /\ stack' = <<CbFrame("tm", t, FALSE)>> \o (IF trep[t] > 0 THEN <<Fr("rearm", t)>> ELSE <<>>)
                    /\ Emit([Z EXCEPT !.ev = "TFireB", !.t = t, !.ts = now * TickUs, !.depth = 1])
-             ELSE NoEvent /\ UNCHANGED <<tint, pending, texp, tst, stack, rdy>>
-          /\ UNCHANGED <<interest, rop, wop, oclosed, dispatched, posts, tcan, trep,
+             ELSE NoEvent /\ UNCHANGED <<tint, pending, texp, tst, stack, rdy, thow>>
+          /\ UNCHANGED <<interest, rop, wop, oclosed, dispatched, posts, tcan, trep, ohow,
                          rdata, peer, wfull, yanked, tarmed, evfd, now, inpoll, batch, bphase, pq, needSample>>
   /\ UNCHANGED <<nop, ncmd, npost, drain, dpolls, done>>
 
